@@ -13,7 +13,7 @@ PROP = {
     ],
 }
 TEXT = {
-    "text": "Coq theorems: along every operation list the logs only grow and key files never change once written (c14_prefix), so a file read earlier is a record-aligned prefix of the file at any later moment; for EVERY schedule of write bursts (arbitrary operation lists) injected in the gaps between the file reads, an archive read in an order accepted by tags_ok (reports before authorizations before the GCA key, each file once) is dependency-closed: every report verifies under the first archived authorization of its device, every authorization under the archived GCA key, every weekly record under the archived server public key, which is exactly the public half of server.keys (c14_closed); the order of the running source (PublicFiles regenerated from both builds on every run) is accepted and does not contain server.keys (c14_order_ok); the number of archives served per window is bounded by the limiter theorem on the regenerated constants (c14_rate). Harness: real GET /api/v1/archive with the handler's yield point between files used to inject every (gap x burst) combination {new device + first report, registration + first device, rotation}; the zip is opened and checked with the real Verify for prefix/alignment/closure/no private bytes, request bursts check the limiter; the same schedule is run through the model (vm_compute). Added after seeded-change rounds: sliding-window request pattern against the limiter (certain violations only), pairs of overlapping downloads right after a refused one with the files growing in between (one scheduler thread, GC off).",
+    "text": "Coq theorems: along every operation list the logs only grow and key files never change once written (c14_prefix), so a file read earlier is a record-aligned prefix of the file at any later moment; for EVERY schedule of write bursts (arbitrary operation lists) injected in the gaps between the file reads, an archive read in an order accepted by tags_ok (reports before authorizations before the GCA key, each file once) is dependency-closed: every report verifies under the first archived authorization of its device, every authorization under the archived GCA key, every weekly record under the archived server public key, which is exactly the public half of server.keys (c14_closed); the order of the running source (PublicFiles regenerated from both builds on every run) is accepted and does not contain server.keys (c14_order_ok); the number of archives served per window is bounded by the limiter theorem on the regenerated constants (c14_rate). Harness: real GET /api/v1/archive with the handler's yield point between files used to inject every (gap x burst) combination {new device + first report, registration + first device, rotation}; the zip is opened and checked with the real Verify for prefix/alignment/closure/no private bytes, request bursts check the limiter; the same schedule is run through the model (vm_compute). Added after seeded-change rounds: sliding-window request pattern against the limiter (certain violations only), pairs of overlapping downloads right after a refused one with the files growing in between (one scheduler thread, GC off). Round 5: archive request while server.keys is missing (no key file may be created, no archive under another key); public files grown to 300 MB (reports, weekly statistics) must still be archived as a record-aligned prefix.",
     "note": "Trusted: Coq kernel+vm_compute, constants translator, harness, archive/zip, kernel read/append atomicity.",
     "technique": "Coq proof (monotone disk evolution + relational invariant between the partial archive and the running server, induction over the schedule) + regenerated constants + differential correspondence + oracle",
 }
